@@ -120,6 +120,13 @@ pub fn search(spec: &SeqSpec, workers: usize) -> ScenarioResult {
             depth_completed = d;
             break;
         }
+        // a level is never started if it cannot finish in reasonable time: the cap is reported, the levels below are complete
+        let per_s = if transitions > 2000 { (transitions as f64 / t0.elapsed().as_secs_f64().max(0.05)).max(1000.0) } else { 20_000.0 };
+        let remaining = (spec.time_cap_s - t0.elapsed().as_secs_f64()).max(0.0);
+        if d > 1 && items.len() as f64 / per_s > remaining * 1.5 + 2.0 {
+            capped = Some(format!("depth {} would need {} transitions (~{:.0}s at the measured rate, {:.0}s left): stopped after completing depth {}", d, items.len(), items.len() as f64 / per_s, remaining, d - 1));
+            break;
+        }
         let outs = run_items(spec, &items, &col, workers, false);
         transitions += items.len() as u64;
         let mut next: Vec<(Vec<Op>, Vec<K>)> = Vec::new();
@@ -305,11 +312,17 @@ pub fn seq_scenario(spec_of: impl Fn(&Ctx) -> SeqSpec + Send + Sync + Clone + 's
     Scenario {
         name: name.to_string(),
         run: Box::new(move |ctx| {
-            let spec = s1(ctx);
+            let mut spec = s1(ctx);
+            spec.time_cap_s = ctx.scenario_cap_s;
+            if !ctx.quick() {
+                // the thorough tier goes as deep as its time share allows; a level that cannot finish is not started
+                spec.depth += 3;
+                spec.max_states = spec.max_states.max(20_000_000);
+            }
             search(&spec, ctx.workers)
         }),
         replay: Box::new(move |doc| -> ReplayOutcome {
-            let ctx = Ctx { tier: crate::props::Tier::Thorough, seed: 0, workers: 1, budget_s: 0.0 };
+            let ctx = Ctx { tier: crate::props::Tier::Thorough, seed: 0, workers: 1, budget_s: 0.0, scenario_cap_s: 0.0 };
             let spec = s2(&ctx);
             let ops: Vec<Op> = doc["replay"]["ops"].as_array().ok_or("replay file has no history")?.iter().map(op_from_json).collect::<Result<Vec<_>, _>>()?;
             replay_history(&spec, ops)
